@@ -27,7 +27,7 @@ ASSUMPTIONS = ['numerically solved dispersion/trace orders are compared to 1e-6 
                'segments whose pixels are collinear (rank-deficient tip/tilt fit) are skipped']
 PLAN = {'quick': {'gen': 8}, 'thorough': {'gen': 16, 'tests': 1}}
 REQUIRED_BUCKETS = ['tilt:subpixel', 'tilt:pixels', 'tilt:beyond-output', 'du:aniso', 'du:iso', 'os>1', 'segmented',
-                    'rep:ramp', 'rep:plane', 'rep:wavefront', 'rep:fit', 'multi-tilt', 'disp:order1', 'disp:order>1',
+                    'rep:ramp', 'rep:plane', 'rep:wavefront', 'rep:fit', 'multi-tilt', 'scan', 'disp:propagated', 'disp:order1', 'disp:order>1',
                     'refit-after-update']
 REQUIRED_ANCHORS = ['anchor:Tilt.shift', 'anchor:Field.shift', 'anchor:fit_tilt', 'anchor:ptt_vector',
                     'anchor:DispersiveTilt.shift', 'probe:propagate_dft']
@@ -208,6 +208,94 @@ def workload(ctx, lentil):
                     need = {(r, c) for r in rows for c in cols}
                     ctx.check(need <= cs, 'rep=model', f'rep|{name}|window',
                               'the evaluated window does not follow the image displacement', desc)
+
+    # ---- field-point scan: one tilted intermediate wavefront re-used with different Tilt planes ---------------
+    for i in range(n // 2):
+        wl, z, dx, du, os_ = gen.optics(rng, aniso_p=0.3)
+        dxs = np.broadcast_to(np.asarray(dx, float), (2,))
+        dus = np.broadcast_to(np.asarray(du, float), (2,))
+        shape = gen.rshape(rng, 5, 14)
+        A = gen.support(rng, shape, kind=int(rng.choice([0, 1, 4])))
+        if A.sum() < 6:
+            A = np.ones(shape, bool)
+        amp = gen.amplitude(rng, A)
+        oshape = gen.rshape(rng, 6, 12)
+        S = (oshape[0] * os_, oshape[1] * os_)
+        ar = dxs[0] * dus[0] / (wl * z * os_)
+        ac = dxs[1] * dus[1] / (wl * z * os_)
+
+        def angle():
+            sp = rng.uniform(-0.12, 0.12, size=2) * np.array(S)
+            return (float(sp[0] * dus[0] / (z * os_)), float(-sp[1] * dus[1] / (z * os_))), (float(sp[0]), float(sp[1]))
+        (t0, s0), pts = angle(), [angle() for _ in range(3)]
+        how = int(rng.integers(0, 3))
+        desc = {'scan': how, 'shape': list(shape), 'out': list(oshape), 'os': os_, 'wl': wl, 'z': z, 'dx': dx, 'du': du}
+        ctx.case(desc, ['multi-tilt', 'scan'])
+        pup = lentil.Pupil(amplitude=amp, pixelscale=dx, focal_length=z)
+        if how == 0:
+            w1 = lentil.Wavefront(wl, tilt=list(t0)) * pup
+        elif how == 1:
+            w1 = lentil.Wavefront(wl) * pup * lentil.Tilt(x=t0[0], y=t0[1])
+        else:
+            w1 = lentil.Wavefront(wl) * lentil.Pupil(amplitude=amp, opd=ramp(shape, dxs, *t0) * A, pixelscale=dx,
+                                                     focal_length=z).fit_tilt()
+        base = [[(amp + 0j, (0, 0))]]
+        for (t, sft) in pts:
+            try:
+                out = lentil.propagate_dft(w1 * lentil.Tilt(x=t[0], y=t[1]), du, shape=oshape, oversample=os_)
+            except Exception as e:
+                ctx.check(False, 'rep=model', f'rep|scan|raises={type(e).__name__}', str(e), desc)
+                break
+            compare_rep(ctx, 'scan', out, base, [(s0[0] + sft[0], s0[1] + sft[1])], ar, ac, S, desc)
+
+    # ---- dispersive elements in a propagation (alone and together with angular tilt, either order) -----------------
+    for i in range(n // 2):
+        wl, z, dx, du, os_ = gen.optics(rng, aniso_p=0.3)
+        dxs = np.broadcast_to(np.asarray(dx, float), (2,))
+        dus = np.broadcast_to(np.asarray(du, float), (2,))
+        shape = gen.rshape(rng, 5, 12)
+        A = gen.support(rng, shape, kind=int(rng.choice([0, 1, 4])))
+        if A.sum() < 6:
+            A = np.ones(shape, bool)
+        amp = gen.amplitude(rng, A)
+        oshape = gen.rshape(rng, 6, 12)
+        S = (oshape[0] * os_, oshape[1] * os_)
+        ar = dxs[0] * dus[0] / (wl * z * os_)
+        ac = dxs[1] * dus[1] / (wl * z * os_)
+        to, do = int(rng.integers(1, 4)), int(rng.integers(1, 4))
+        # a displacement of a few output pixels: lambda = lam0 + d1*d (+ small higher orders)
+        span = float(rng.uniform(0.05, 0.2)) * min(S) * float(min(dus)) / os_          # metres on the focal plane
+        lam0 = wl * float(rng.uniform(0.9, 1.1))
+        d1 = (wl - lam0) / (span * float(rng.choice([-1, 1]))) if wl != lam0 else 1e-3
+        disp = [float(rng.normal() * 1e-2 * abs(d1) / span ** (k - 1)) for k in range(do, 1, -1)] + [d1, lam0]
+        trace = [float(rng.normal() * 0.3 / span ** (k - 1)) for k in range(to, 1, -1)] + [float(rng.normal()), 0.0]
+        desc = {'dispersive-propagation': {'trace': trace, 'dispersion': disp}, 'shape': list(shape), 'out': list(oshape),
+                'os': os_, 'wl': wl, 'z': z, 'dx': dx, 'du': du}
+        ctx.case(desc, ['disp:order1' if (to == 1 and do == 1) else 'disp:order>1', 'disp:propagated'])
+        g = lentil.DispersiveTilt(trace=trace, dispersion=disp)
+        try:
+            x, y = g.shift(wavelength=wl)
+            x, y = float(np.ravel(x)[0]), float(np.ravel(y)[0])
+        except Exception as e:
+            ctx.check(False, 'dispersive:trace', f'dispersive|raises={type(e).__name__}', str(e), desc)
+            continue
+        sd = (-y * os_ / dus[0], x * os_ / dus[1])             # rows grow downwards (-y), columns with +x
+        tx, ty = float(rng.normal() * 2) * dus[0] / (z * os_), float(rng.normal() * 2) * dus[1] / (z * os_)
+        st = (z * tx * os_ / dus[0], -z * ty * os_ / dus[1])
+        pup = lentil.Pupil(amplitude=amp, pixelscale=dx, focal_length=z)
+        for label, planes, s in (('dispersive', [g], sd),
+                                 ('tilt+dispersive', [lentil.Tilt(x=tx, y=ty), g], (sd[0] + st[0], sd[1] + st[1])),
+                                 ('dispersive+tilt', [g, lentil.Tilt(x=tx, y=ty)], (sd[0] + st[0], sd[1] + st[1]))):
+            try:
+                w = lentil.Wavefront(wl) * pup
+                for pl_ in planes:
+                    w = w * pl_
+                out = lentil.propagate_dft(w, du, shape=oshape, oversample=os_)
+            except Exception as e:
+                ctx.check(False, 'rep=model', f'rep|{label}|raises={type(e).__name__}' + ('|order>1' if (to > 1 or do > 1) else ''),
+                          f'propagating a wavefront carrying a dispersive element raised {type(e).__name__}: {e}', desc)
+                continue
+            compare_rep(ctx, label, out, [[(amp + 0j, (0, 0))]], [s], ar, ac, S, desc)
 
     # ---- per-segment tilts: ramp vs fit vs model ---------------------------------
     for i in range(n // 2):
